@@ -6,6 +6,7 @@ DC = 'src/draco/core/divide.cc'
 DEPS = ['core']
 
 consts = [
+    {'const': 'LUT_ELEM_T_FROM_SOURCE', 'file': AH, 'regex': r'std::vector<(\w+)> lut_table_;', 'noparen': True, 'resolve_alias': True},
     {'const': 'DRACO_ANS_P8_PRECISION', 'file': AH, 'regex': r'#define DRACO_ANS_P8_PRECISION (\S+)'},
     {'const': 'DRACO_ANS_L_BASE', 'file': AH, 'regex': r'#define DRACO_ANS_L_BASE (\S+)'},
     {'const': 'DRACO_ANS_IO_BASE', 'file': AH, 'regex': r'#define DRACO_ANS_IO_BASE (\S+)'},
@@ -27,7 +28,7 @@ structs = [
     {'struct': 'rans_sym', 'file': AH, 'fields': [('uint32_t prob', r'struct rans_sym \{\s*uint32_t prob;'), ('uint32_t cum_prob', r'struct rans_sym \{\s*uint32_t prob;\s*uint32_t cum_prob;')]},
     {'struct': 'rans_dec_sym', 'file': AH, 'fields': [('uint32_t val', r'struct rans_dec_sym \{\s*uint32_t val;'), ('uint32_t prob', r'struct rans_dec_sym \{\s*uint32_t val;\s*uint32_t prob;'), ('uint32_t cum_prob', r'(?s)struct rans_dec_sym \{.{0,80}?uint32_t cum_prob;')]},
     {'struct': 'RAnsEncoder', 'file': AH, 'fields': [('struct AnsCoder ans_', r'AnsCoder ans_;')]},
-    {'struct': 'RAnsDecoder', 'file': AH, 'fields': [('struct vec_u32 lut_table_', r'std::vector<uint32_t> lut_table_;'), ('struct vec_sym probability_table_', r'std::vector<rans_sym> probability_table_;'),
+    {'struct': 'RAnsDecoder', 'file': AH, 'fields': [('struct vec_u32 lut_table_', r'std::vector<\w+> lut_table_;'), ('struct vec_sym probability_table_', r'std::vector<rans_sym> probability_table_;'),
                                                       ('struct AnsDecoder ans_', r'AnsDecoder ans_;')]},
 ]
 functions = [
@@ -85,6 +86,7 @@ functions += [
 ]
 
 UNIT = {'name': 'ans', 'structs': structs, 'consts': consts, 'raw': raw, 'functions': functions,
+        'pre_struct_text': ['#ifndef VEC_U32_DEFINED\n#define VEC_U32_DEFINED\nstruct vec_u32 { LUT_ELEM_T_FROM_SOURCE *data; size_t size; size_t cap; };  /* std::vector<T> lut_table_, T copied from ans.h */\n#endif'],
         'pre_text': ['typedef uint8_t AnsP8;']}
 SRC = 'contracts/ans.c'
 DEFS = ['-DDRACO_BACKWARDS_COMPATIBILITY_SUPPORTED']
